@@ -715,7 +715,7 @@ class Exec:
         derived = self.detect_derived(body, parts, None, None)
         derived = {i: kd for i, kd in derived.items() if kd[0] == "add" or True}
         cond_ids = {n.get("id") for n in walk(cond) if n.get("k") == "ref"}
-        prim = [i for i, (kind, d) in derived.items() if i in cond_ids and kind == "add" and sym.const_value(d) in (1, -1)]
+        prim = [i for i, (kind, d) in derived.items() if i in cond_ids and kind == "add" and sym.const_value(d) not in (None, 0)]
         if len(prim) != 1:
             return False
         asg, _ = assigned_ids([cond])
@@ -737,10 +737,20 @@ class Exec:
         if c[0] == "op" and c[1] in ("<", "<=", ">", ">=", "!="):
             flip = {"<": ">", "<=": ">=", ">": "<", ">=": "<=", "!=": "!="}
             lin = sym.linear_in(sym.sub(c[2], c[3]), k)
-            if lin is not None and lin[0] == I(1):
+            sl = sym.const_value(lin[0]) if lin is not None else None
+            if sl == 1:
                 cmpop, hi = c[1], sym.neg(lin[1])
-            elif lin is not None and lin[0] == I(-1):
+            elif sl == -1:
                 cmpop, hi = flip[c[1]], lin[1]
+            elif sl is not None and sl != 0 and c[1] != "!=":
+                # s*K + D (op) 0 with |s| = m > 1: normalised to m*K < D', i.e. K < ceil(D'/m) = (D' + m - 1) / m
+                op_, D_, m_ = c[1], lin[1], abs(sl)
+                if sl > 0:                      # m*K + D op 0
+                    Dp = {"<": sym.neg(D_), "<=": sym.add(sym.neg(D_), I(1))}.get(op_)
+                else:                           # -m*K + D op 0  <=>  m*K (flipped op) D
+                    Dp = {">": D_, ">=": sym.add(D_, I(1))}.get(op_)
+                if Dp is not None:
+                    cmpop, hi = "<", sym.binop("/", sym.add(Dp, I(m_ - 1)), I(m_))
             if cmpop == "!=":
                 cmpop = "<"
         if cmpop == "<":
